@@ -133,10 +133,120 @@ func c27NodePath(r *engine.Run, g *apimodel.Golden, oc *engine.Counter) map[stri
 		}
 		api.VerifServerClose(srv)
 	}
-	_ = strings.TrimSpace
+	setEvals, setVariants := c27NodeAPISets(r, g, oc, base)
 	return map[string]interface{}{
+		"api_set_spellings": map[string]interface{}{
+			"what":                "the API-set settings (-enable-api-sets, -disable-api-sets, -enable-all-api-sets) in every accepted spelling (upper/lower/mixed case, blanks around the names) × one GET endpoint of every API set: refused as disabled exactly when the settings name it disabled",
+			"node_configurations": setVariants,
+			"requests":            setEvals,
+		},
 		"what":                "API server created by skycoin.Config.postProcess + Coin.createGUI for each node configuration; Host × Origin/Referer × method on /api/v1/version and /api/v1/csrf vs the reference access predicate",
 		"node_configurations": len(variants),
 		"requests":            evals,
 	}
+}
+
+// c27NodeAPISets: what the operator WROTE decides which API sets are on.  validateAPISets accepts a name in any case and with
+// blanks around it, so every accepted spelling must have the effect of the name it was accepted as.
+func c27NodeAPISets(r *engine.Run, g *apimodel.Golden, oc *engine.Counter, base skycoin.NodeConfig) (evals, nvariants int) {
+	// the sets -enable-all-api-sets turns on (documented: every set but the insecure and deprecated ones)
+	all := map[string]bool{"READ": true, "STATUS": true, "WALLET": true, "TXN": true, "NET_CTRL": true, "STORAGE": true}
+	type variant struct {
+		enableAll       bool
+		enable, disable string
+	}
+	spell := func(names []string, style int) string {
+		out := make([]string, len(names))
+		for i, n := range names {
+			switch style {
+			case 0:
+				out[i] = n
+			case 1:
+				out[i] = strings.ToLower(n)
+			case 2:
+				out[i] = n[:1] + strings.ToLower(n[1:])
+			case 3:
+				out[i] = " " + n
+			case 4:
+				out[i] = n + " "
+			}
+		}
+		return strings.Join(out, ",")
+	}
+	lists := [][]string{{}, {"WALLET"}, {"READ", "WALLET"}, {"STATUS", "STORAGE", "NET_CTRL"}, {"INSECURE_WALLET_SEED", "TXN"}}
+	var variants []variant
+	for _, ea := range []bool{false, true} {
+		for _, en := range lists {
+			for _, dis := range lists {
+				for style := 0; style < 5; style++ {
+					if style > 0 && len(en) == 0 && len(dis) == 0 {
+						continue
+					}
+					variants = append(variants, variant{ea, spell(en, style), spell(dis, style)})
+				}
+			}
+		}
+	}
+	// one GET probe per API set: a route served for GET whose only set is that one
+	probes := map[string]string{}
+	for i := range g.Routes {
+		rt := &g.Routes[i]
+		sets, ok := rt.Sets("GET")
+		if !ok || len(sets) != 1 || strings.Contains(rt.Path, "{") {
+			continue
+		}
+		if _, have := probes[sets[0]]; !have {
+			probes[sets[0]] = rt.Path
+		}
+	}
+	norm := func(list string) map[string]bool {
+		m := map[string]bool{}
+		for _, k := range strings.Split(list, ",") {
+			if k = strings.ToUpper(strings.TrimSpace(k)); k != "" {
+				m[k] = true
+			}
+		}
+		return m
+	}
+	for _, v := range variants {
+		n := base
+		n.EnableAllAPISets, n.EnabledAPISets, n.DisabledAPISets = v.enableAll, v.enable, v.disable
+		name := fmt.Sprintf("enable-all-api-sets=%v enable-api-sets=%q disable-api-sets=%q", v.enableAll, v.enable, v.disable)
+		var srv *api.Server
+		var err error
+		pan, msg := engine.Catch(func() { srv, err = skycoin.VerifNodeAPIServer(n) })
+		if pan || err != nil {
+			r.Broken("node configuration %s: the node's own API server could not be created: %v %s", name, err, msg)
+			continue
+		}
+		nvariants++
+		own := srv.Addr()
+		h := api.VerifServerHandler(srv)
+		en, dis := norm(v.enable), norm(v.disable)
+		for _, set := range g.APISets {
+			path, ok := probes[set]
+			if !ok {
+				continue
+			}
+			want := (en[set] || (v.enableAll && all[set])) && !dis[set]
+			req := &http.Request{Method: "GET", URL: &url.URL{Path: path}, Proto: "HTTP/1.1", ProtoMajor: 1, ProtoMinor: 1, Header: http.Header{},
+				Host: own, RemoteAddr: "192.0.2.7:40000", RequestURI: path, Body: http.NoBody}
+			rec := httptest.NewRecorder()
+			// the server has no gateway: an endpoint that gets past the API-set gate may panic on it, which is "not refused" here
+			engine.Catch(func() { h.ServeHTTP(rec, req) })
+			evals++
+			refused := rec.Code == 403 && strings.Contains(rec.Body.String(), "Endpoint is disabled")
+			oc.Add(fmt.Sprintf("node-api-sets:%s:enabled=%v", set, !refused))
+			cs := map[string]interface{}{"node_configuration": name, "api_set": set, "probe": "GET " + path}
+			if !want && !refused {
+				r.Failf("access:reached-but-must-be-refused:api_set:node-configuration-path:"+set, cs,
+					"node started with %s: GET %s (API set %s, which these settings leave disabled) is not refused as disabled (status %d)", name, path, set, rec.Code)
+			} else if want && refused {
+				r.Failf("access:refused-but-must-be-served:api_set:node-configuration-path:"+set, cs,
+					"node started with %s: GET %s (API set %s, which these settings enable) is refused as disabled", name, path, set)
+			}
+		}
+		api.VerifServerClose(srv)
+	}
+	return
 }
